@@ -134,6 +134,16 @@ Definition m_ack (m : mon) (b : bool) : mon * N :=
     | CNone => if Bool.eqb (m_sn m) b then (m, 0) else (mw_txdead m true, 0)
     end.
 
+(* a PDU with header low byte hl and payload pb passed CRC and MIC and there was a buffer: it is new
+   iff its SN is the expected one; new PDUs are acknowledged; stored if non-empty with a valid LLID;
+   second component: expected number of increment_receive_packet_counter() calls *)
+Definition m_accept (m1 : mon) (hl : N) (pb : list N) : mon * N :=
+  if Bool.eqb (has hl sn_flag) (m_nesn m1) then
+    (mw_nesn (if negb (blen pb =? 0) && negb (llid hl =? 0)
+              then mw_rxq m1 (m_rxq m1 ++ [(mkhdr hl pb, pb)]) else m1) (negb (m_nesn m1)),
+     if negb (blen pb =? 0) then 1 else 0)
+  else (m1, 0).
+
 Definition tc_ok (m : mon) (tc etc : N) : bool := m_txdead m || (tc =? etc).
 
 Definition mstep (m : mon) (o : op) (r : out) : verdict * mon :=
@@ -165,13 +175,7 @@ Definition mstep (m : mon) (o : op) (r : out) : verdict * mon :=
   | Rx _ _, OPre | Mic _ _, OPre => (Ok, m)
   | Rx hl pb, OResp KR size h body rc tc =>
       let '(m1, etc) := m_ack m (has hl nesn_flag) in
-      let isnew := Bool.eqb (has hl sn_flag) (m_nesn m1) in
-      let erc := if isnew && negb (blen pb =? 0) then 1 else 0 in
-      let m2 :=
-        if isnew then
-          mw_nesn (if negb (blen pb =? 0) && negb (llid hl =? 0)
-                   then mw_rxq m1 (m_rxq m1 ++ [(mkhdr hl pb, pb)]) else m1) (negb (m_nesn m1))
-        else m1 in
+      let '(m2, erc) := m_accept m1 hl pb in
       match check_resp t_nesn_rx m2 size h body with
       | (Ok, m3) =>
           if negb (rc =? erc) then (Bad t_rx_counter, m3)
@@ -310,7 +314,7 @@ Inductive event :=
 Definition ll_op_ok (o : op) : bool :=
   match o with
   | MaxRx _ | MaxTx _ | Stop | Pend | NextRecv | FreeRecv => true
-  | Tx _ hl _ => N.land hl 28 =? 0
+  | Tx _ hl body => (N.land hl 28 =? 0) && negb (blen body =? 0)
   | _ => false
   end.
 
@@ -356,4 +360,73 @@ Fixpoint sys_run (cf : cfg) (cs : central * state) (evs : list event) : central 
       let '(cs1, tr1) := sys_step cf cs e in
       let '(cs2, tr2) := sys_run cf cs1 t in
       (cs2, tr1 ++ tr2)
+  end.
+
+(* ------------------------------------------------------------------------------------------
+   Ghost history of an observed trace (what the end-to-end statements talk about), computed beside
+   the monitor from operations and outputs only. *)
+Record ghost := mkG {
+  g_acc : list cpdu;             (* new PDUs the peripheral accepted: (LLID, payload), empty and invalid-LLID ones included *)
+  g_freed : list (N * list N);   (* PDUs handed to the link layer and freed: header as received, payload *)
+  g_comm : list (N * list N);    (* PDUs committed by the link layer: (LLID, payload) *)
+  g_popped : list (N * list N);  (* PDUs removed from the transmit FIFO (considered delivered) *)
+  g_rxc : N;                     (* calls of increment_receive_packet_counter() *)
+  g_txc : N }.                   (* calls of increment_transmit_packet_counter() *)
+
+Definition g0 : ghost := mkG [] [] [] [] 0 0.
+
+Definition gw_acc g v := mkG v (g_freed g) (g_comm g) (g_popped g) (g_rxc g) (g_txc g).
+Definition gw_freed g v := mkG (g_acc g) v (g_comm g) (g_popped g) (g_rxc g) (g_txc g).
+Definition gw_comm g v := mkG (g_acc g) (g_freed g) v (g_popped g) (g_rxc g) (g_txc g).
+Definition gw_popped g v := mkG (g_acc g) (g_freed g) (g_comm g) v (g_rxc g) (g_txc g).
+Definition g_count g rc tc := mkG (g_acc g) (g_freed g) (g_comm g) (g_popped g) (g_rxc g + rc) (g_txc g + tc).
+
+Definition ack_ghost (m : mon) (g : ghost) (b : bool) : ghost :=
+  if m_txdead m then g
+  else match m_cur m with
+       | CData s => if Bool.eqb s b then g else gw_popped g (g_popped g ++ firstn 1 (m_txq m))
+       | _ => g
+       end.
+
+Definition gstep (m : mon) (g : ghost) (o : op) (r : out) : ghost :=
+  match o, r with
+  | Reset, OUnit => g0
+  | Tx _ hl body, OTx true => if m_stopped m then g else gw_comm g (g_comm g ++ [(llid hl, body)])
+  | FreeRecv, OUnit => gw_freed g (g_freed g ++ firstn 1 (m_rxq m))
+  | Rx hl pb, OResp KR _ _ _ rc tc =>
+      let g1 := ack_ghost m g (has hl nesn_flag) in
+      let m1 := fst (m_ack m (has hl nesn_flag)) in
+      let g2 := if Bool.eqb (has hl sn_flag) (m_nesn m1) then gw_acc g1 (g_acc g1 ++ [(llid hl, pb)]) else g1 in
+      g_count g2 rc tc
+  | Mic hl pb, OResp KA _ _ _ rc tc =>
+      g_count (if negb (llid hl =? 0) then ack_ghost m g (has hl nesn_flag) else g) rc tc
+  | _, OResp _ _ _ _ rc tc => g_count g rc tc
+  | _, _ => g
+  end.
+
+(* monitor (all clauses) and ghost history along a trace; None: some clause is violated *)
+Fixpoint grun (m : mon) (g : ghost) (tr : list (op * out)) : option (mon * ghost) :=
+  match tr with
+  | [] => Some (m, g)
+  | (o, r) :: t =>
+      match mstep m o r with
+      | (Ok, m') => grun m' (gstep m g o r) t
+      | (Bad _, _) => None
+      end
+  end.
+
+(* a PDU of the central that the peripheral has to hand to its link layer / that advances the
+   receive packet counter *)
+Definition storable (p : cpdu) : bool := negb (blen (snd p) =? 0) && negb (fst p =? 0).
+Definition counted (p : N * list N) : bool := negb (blen (snd p) =? 0).
+Definition pkey (x : N * list N) : N * list N := (llid (fst x), snd x).
+
+(* the PDU of the central that the peripheral has accepted while the central does not know yet *)
+Definition rx_in_flight (c : central) (m : mon) : list cpdu :=
+  if Bool.eqb (m_nesn m) (c_sn c) then [] else [cen_pdu c].
+(* the committed PDU the central has accepted while the peripheral does not know yet *)
+Definition tx_in_flight (c : central) (m : mon) : list (N * list N) :=
+  match m_cur m with
+  | CData s => if Bool.eqb (c_nesn c) s then [] else firstn 1 (m_txq m)
+  | _ => []
   end.
